@@ -361,7 +361,8 @@ pub fn parse_proj(definition: &str) -> Result<String, Error> {
                 .collect();
 
             if step_is_inverted != pipeline_is_inverted {
-                elements.insert(1, "inv".to_string());
+                // (a degenerate step may consist of nothing but an 'inv')
+                elements.insert(1.min(elements.len()), "inv".to_string());
             }
 
             geodesy_step = elements.join(" ").trim().to_string();
